@@ -392,7 +392,7 @@ def run(ctx):
     if cc.returncode != 0:
         ctx.violation("cannot build harness/slowwait.c: " + cc.stderr[-300:], {"kind": "harness-build"}, no_input=True)
     else:
-        sw = make_sessions(ctx, binary, net, 2 if quick else 10, [1, 3] if quick else [1, 2, 3, 5, 8], want_events=False, scripts={"slow-waiter": sc_slow_waiter})
+        sw = make_sessions(ctx, binary, net, 6 if quick else 20, [1, 3] if quick else [1, 2, 3, 5, 8], want_events=False, scripts={"slow-waiter": sc_slow_waiter})
         for x in sw:
             x.env["LD_PRELOAD"] = shim; x.env["VERIF_SLOWWAIT_US"] = "2000"
             x.env["TEXEL_VERIF_YIELD"] = f"{ctx.rng.randrange(1 << 30)}:500"
